@@ -603,6 +603,16 @@ func c08free(c *fw.Ctx) {
 	start := make(chan struct{})
 	var overlapping int64
 	var inCommit int32
+	var txnReads int64
+	var txnBad atomic.Value
+	watch := map[string]bool{} // blocks whose transaction cache is read by a watcher during the commits
+	for f := range forks {
+		for _, b := range forks[f] {
+			if r.Intn(3) == 0 {
+				watch[b.hash] = true
+			}
+		}
+	}
 	for f := 0; f < nforks; f++ {
 		wg.Add(1)
 		go func(f int) {
@@ -617,11 +627,42 @@ func c08free(c *fw.Ctx) {
 				for _, k := range b.rm {
 					tc.Remove(k)
 				}
+				// a watcher reads through this transaction's own cache while the transaction and then the block commit:
+				// own writes first, so a hit must be what the block tree determines at b whatever the timing
+				stop := make(chan struct{})
+				var wwg sync.WaitGroup
+				if watch[b.hash] {
+					wwg.Add(1)
+					go func() {
+						defer wwg.Done()
+						for n := 0; ; n++ {
+							select {
+							case <-stop:
+								return
+							default:
+							}
+							k := keys[n%len(keys)]
+							v, ok := tc.Get(k)
+							atomic.AddInt64(&txnReads, 1)
+							if ok {
+								want, has := truth(k, b.hash)
+								if got := string(v.(statecache.String)); !has || got != want {
+									txnBad.Store(fmt.Sprintf("lookup %s through the transaction cache of %s while it commits: hit %q, the block tree determines %q (present=%v)", k, b.hash, got, want, has))
+								}
+							}
+							if n%16 == 0 {
+								runtime.Gosched()
+							}
+						}
+					}()
+				}
 				tc.Commit()
 				atomic.AddInt32(&inCommit, 1)
 				bc.Commit()
 				atomic.AddInt32(&inCommit, -1)
 				atomic.StoreInt32(&b.done, 1)
+				close(stop)
+				wwg.Wait()
 			}
 		}(f)
 	}
@@ -677,6 +718,11 @@ func c08free(c *fw.Ctx) {
 	}
 	c08setHook(nil)
 	desc := fmt.Sprintf("free run: %d forks x %d blocks, %d readers, %d keys, GOMAXPROCS=%d", nforks, depth, nreaders, nkeys, procs)
+	if b := txnBad.Load(); b != nil {
+		c.Violate("", "%s: %s", desc, b.(string))
+		return
+	}
+	c.Count("free_lookups_through_a_committing_transaction_cache", atomic.LoadInt64(&txnReads))
 	for _, x := range reads {
 		want, has := truth(x.key, x.blk)
 		c.Count("free_lookups", 1)
@@ -760,14 +806,14 @@ func init() {
 		Rule: "Mode A (controlled schedules through the verif yield hook, one yield before every shared-map access of StateCache.Get/commit): 14 small scenarios (ancestors A<-B committed; C, child of B, writing k1,k2 and removing k3, being committed by one participant, in one scenario followed by its child E; two scenarios commit a parent AFTER its already committed child; two scenarios start with k1's per-key version map filled to exactly its 200-entry capacity; two scenarios run a second committer for a sibling block writing a brand-new key (the scheduler sets a participant aside while it is blocked on a real lock); " +
 			"2-3 reader participants issuing 1-2 lookups at A, B, C, E and through the block/transaction cache of an open child D). Schedules: breadth-first enumeration of all schedules with at most 3 (quick) / 4 (thorough) preemptions up to a cap, uniform random schedules, PCT-style priority schedules. " +
 			"Oracle: every hit equals the value the block tree determines; lookups at contexts committed before the run, of own uncommitted entries, and lookups started after Commit returned must hit; a quiescent sweep re-reads every (key, block). " +
-			"Mode B: 2-6 committers each extending its own fork, 4-10 readers, GOMAXPROCS in {1,2,4,16}, the hook injects Gosched/µs sleeps; same oracle on the recorded results plus post-commit visibility; the whole check runs in the -race binary and every distinct race report is a violation. " +
+			"Mode B: 2-6 committers each extending its own fork, 4-10 readers, GOMAXPROCS in {1,2,4,16}, the hook injects Gosched/µs sleeps; for a third of the blocks a watcher goroutine reads every key through the block's transaction cache while the transaction and then the block commit (a hit must be what the block tree determines at that block); same oracle on the recorded results plus post-commit visibility; the whole check runs in the -race binary and every distinct race report is a violation. " +
 			"distinct non-trivial = distinct (scenario, schedule trace) pairs plus free runs",
 		Cases: func(tier string) int {
 			n, ch, _, free, _, _ := c08layout(tier)
 			return n + n*ch*2 + free
 		},
 		Run: runC08,
-		Floors: map[string]int64{"schedules": 80000, "yields_observed": 1500000, "distinct:adjacent_point_pairs": 35, "free_runs": 100, "free_lookups": 30000, "free_lookups_overlapping_a_commit": 2000,
+		Floors: map[string]int64{"free_lookups_through_a_committing_transaction_cache": 10000, "schedules": 80000, "yields_observed": 1500000, "distinct:adjacent_point_pairs": 35, "free_runs": 100, "free_lookups": 30000, "free_lookups_overlapping_a_commit": 2000,
 			"schedules:uniform random": 25000, "schedules:PCT priorities": 25000, "scenarios_enumerated_completely_to_bound": 1},
 		Assumptions: []string{
 			"mode A: exactly one committer is active at a time and readers never use the BlockCache object that is being committed (its mutex is held for the whole commit): the cooperative scheduler would otherwise block on real mutexes",
